@@ -50,6 +50,42 @@ def cases_countif(tier, seed):
             yield dict(kind='countifs', cols=[c1, c2], crits=[[p1, o1], [p2, o2]])
 
 
+def cases_countifs3(tier, seed):
+    """three and four criteria: the conjunction is taken row by row (survivors of the first criteria need not be a prefix)"""
+    import random
+    rng = random.Random(seed + 153)
+    cols = [[1, 1, 5, 1, 0, 7], ['a', 'b', 'A', 'b', 'a', 'B'], [0, 1, 1, 0, 1, 1], [3, -3, 3, -3, 3, 3]]
+    crits = [[('>', 0), ('>', 1), ('<>', 1), ('', 1)], [('', 'a'), ('', 'b'), ('<>', 'a')], [('', 1), ('', 0), ('>=', 0)], [('>', 0), ('<', 0)]]
+    for c0 in crits[0]:
+        for c1 in crits[1]:
+            for c2 in crits[2]:
+                yield dict(kind='countifs-n', cols=cols[:3], crits=[list(c0), list(c1), list(c2)])
+                for c3 in crits[3]:
+                    yield dict(kind='countifs-n', cols=cols, crits=[list(c0), list(c1), list(c2), list(c3)])
+    for _ in range(40 if tier == 'quick' else 2000):
+        n, k = rng.randrange(2, 9), rng.randrange(2, 5)
+        cs = [[rng.choice(POOL_N[:8] + POOL_T[:5]) for _ in range(n)] for _ in range(k)]
+        cr = [[rng.choice(PREFIXES), rng.choice(col)] for col in cs]
+        yield dict(kind='countifs-n', cols=cs, crits=cr)
+
+
+def oracle_countifs3(c):
+    from drivers.common import eval_formula
+    cells = {}
+    n = len(c['cols'][0])
+    parts = []
+    for k, col in enumerate(c['cols']):
+        L = 'ABCDEFG'[k]
+        for i, v in enumerate(col):
+            cells[f'{L}{i + 1}'] = v
+        p, o = c['crits'][k]
+        parts.append(f'{L}1:{L}{n},"{crit_text(p, o)}"')
+    f = '=COUNTIFS(' + ','.join(parts) + ')'
+    exp = ('num', sum(1 for i in range(n) if all(matches(col[i], c['crits'][k][0], c['crits'][k][1]) for k, col in enumerate(c['cols']))))
+    obs = eval_formula(f, cells)
+    return obs == exp, (f, exp), obs
+
+
 def cases_lookup(tier, seed):
     tables = [
         [[1, 'one', 10], [3, 'three', 30], [5, 'five', 50], [7, 'seven', 70]],
@@ -219,3 +255,6 @@ def oracle_random(c):
 DRIVERS.append(Driver('C15/B4.random', cases_random, oracle_random, nchunks=8,
                       rule='seeded random columns of 1-40 cells (numbers incl. equal ints/floats, texts differing only in case, mixed) x random criterion: COUNTIF == linear scan; random key columns with duplicates: VLOOKUP == first matching row, exact MATCH == first position; approximate MATCH on random ascending data',
                       bound='60 (quick) / 6000 (thorough) cases, columns <= 40 cells'))
+DRIVERS.append(Driver('C15/B4.countifs', cases_countifs3, oracle_countifs3, nchunks=6,
+                      rule='COUNTIFS with three and four (range, criterion) pairs over columns in which the rows accepted by the first criteria are not a prefix (systematic: 4 x 3 x 3 (x 2) criteria), plus seeded random columns of 2-8 cells x 2-4 criteria: the count of rows satisfying every criterion, by linear scan',
+                      bound='columns <= 8 cells, <= 4 criteria'))
